@@ -61,7 +61,7 @@ type objInfo struct {
 	spatial bool
 	empty   bool
 	points  int
-	slack   int // a BOUNDS object is held as a 2-point rectangle but serialised as a 5-point polygon
+	slack   int        // a BOUNDS object is held as a 2-point rectangle but serialised as a 5-point polygon
 	rect    [4]float64 // minx miny maxx maxy
 }
 
@@ -209,7 +209,9 @@ func checkAll(db *model.DB, fail func(key, what string)) {
 		} {
 			idq := append([]string{q[0], q[1], "LIMIT", "100000", "IDS"}, q[3:]...)
 			want := int64(len(idsOf(conn.MustDo(idq...))))
-			if q[3] == "BOUNDS" {
+			if q[0] == "INTERSECTS" && q[3] == "BOUNDS" {
+				// everything non-empty intersects the world rectangle (WITHIN it is not guaranteed:
+				// a circle reaching across the antimeridian is not inside it)
 				want = int64(len(geoms))
 			}
 			if v := conn.MustDo(q...); v.Kind != ':' || v.Int != want {
